@@ -901,6 +901,10 @@ func rulesC13(c *Ctx) {
 	// per-execution state of an executor no other execution shares
 	c.Rule("fresh-executors")
 	c01Self(c)
+	// "never extending past the remaining max duration": what remains is measured from the execution's start time,
+	// which every copy an enclosing policy makes of the execution must carry unchanged
+	c.Rule("execution-protocol")
+	execStateMethods(c, map[string]bool{"CopyForHedge": true, "CopyForCancellable": true, "copy": true, "CopyWithResult": true})
 }
 
 func c13GetDelay(c *Ctx) {
